@@ -189,7 +189,7 @@ class _Walker:
     def __init__(self, an, f):
         self.an, self.f = an, f
         self.p = an.p
-        self.sn = f.params[0] if f.cls is not None and f.params else None
+        self.sn = f.params[0] if f.has_self else None
         self.env = {}
         self.self_env = {}
         self.loopvars = set()
@@ -339,7 +339,7 @@ class _Walker:
         out = EMPTY
         for g in cands:
             s = self.an.summ[g.qualname]
-            names = g.params[1:] if g.cls is not None else g.params
+            names = g.params[1:] if g.has_self else g.params
             argvals = {}
             for nm, a in zip(names, args):
                 argvals[nm] = self.ev(a)
